@@ -100,11 +100,89 @@ def renumber(text):
     return re.sub(r"_v\d+", sub, text)
 
 
+def names_of(text):
+    """the names a definition puts into the root scope, from its source text: v: variables / functions / union cases, t: types, r: records"""
+    out = []
+    lines = text.split("\n")
+    m = re.match(r"package_info (\w+) =", lines[0])
+    if m:
+        pre = "" if m.group(1) == "_" else m.group(1) + "."
+        for ln in lines[1:]:
+            t = re.match(r"\s+type (\w+)", ln)
+            f = re.match(r"\s+let (\w+)", ln)
+            if t:
+                out.append("t:" + pre + t.group(1))
+            if f:
+                out.append("v:" + pre + f.group(1))
+        return sorted(out)
+    if lines[0].startswith("let "):
+        return ["v:" + re.match(r"let (\w+)", lines[0]).group(1)]
+    cur = None
+    for ln in lines:
+        h = re.match(r"(?:type|and) (\w+)(?:<[^>]*>)? =\s*(\{)?", ln)
+        if h:
+            cur = h.group(1)
+            out.append("t:" + cur)
+            if h.group(2):
+                out.append("r:" + cur)
+            continue
+        c = re.match(r"\s*\| (\w+)", ln)
+        if c and cur:
+            out.append("v:" + c.group(1))
+    return sorted(out)
+
+
+PRELUDE_ROOTS = {}
+
+
+def prelude_roots(ctx):
+    """number of root statements of pkg_all.foi (their events come first in every recorded run)"""
+    if "n" not in PRELUDE_ROOTS:
+        wd = ctx.mkdir("c07cal")
+        log = os.path.join(wd, "ps.log")
+        if os.path.exists(log):
+            os.remove(log)
+        rc, so, se = fcutil.run_fc(ctx, [], cwd=wd, timeout=120, env={"FOLANG_VERIF_PSLOG": log})
+        evs = core.read_ndjson(log) if os.path.exists(log) else []
+        if rc != 0 or not evs:
+            PRELUDE_ROOTS["n"] = None          # no hook in this tree (or fc fails on the prelude): the white-box part is skipped
+        else:
+            PRELUDE_ROOTS["n"] = sum(1 for e in evs if e["ev"] == "root")
+    return PRELUDE_ROOTS["n"]
+
+
+def read_pslog(log, n0):
+    """events of the history's own files (the prelude's first n0 root statements dropped), root-scope names relative to the first of them"""
+    evs = core.read_ndjson(log) if os.path.exists(log) else []
+    roots = 0
+    start = None
+    for i, e in enumerate(evs):
+        if e["ev"] == "root":
+            roots += 1
+            if roots == n0 + 1:
+                start = i
+                break
+    if start is None:
+        return []
+    base = None
+    out = []
+    for e in evs[start:]:
+        names = set(["v:" + x for x in e["vars"]] + ["r:" + x for x in e["recs"]] + ["t:" + x for x in e["types"]])
+        if base is None:
+            base = names
+        out.append({"ev": e["ev"], "tt": e["tt"], "depth": e["depth"], "names": sorted(names - base), "lost": sorted(base - names), "tva": e["tva"], "res": e["res"],
+                    "tdtva": e["tdtva"], "tddefined": e["tddefined"], "tdalloced": e["tdalloced"], "insideTD": e["insideTD"], "offside": e["offside"], "tmp": e["tmp"]})
+    return out
+
+
 def run_history(ctx, pkg, hist, k, foi_first=False):
     wd = os.path.join(ctx.mkdir("c07"), "h%d" % k)
     os.makedirs(wd)
     args, want = render(pkg, hist, wd, foi_first)
-    rc, so, se = fcutil.run_fc(ctx, args, cwd=wd, timeout=120)
+    n0 = prelude_roots(ctx)
+    pslog = os.path.join(wd, "ps.log")
+    rc, so, se = fcutil.run_fc(ctx, args, cwd=wd, timeout=120, env={"FOLANG_VERIF_PSLOG": pslog} if n0 else None)
+    psevents = read_pslog(pslog, n0) if n0 else None
     files = sorted(f for f in os.listdir(wd) if f.startswith("gen_"))
     decls = {}
     perr = ""
@@ -127,7 +205,12 @@ def run_history(ctx, pkg, hist, k, foi_first=False):
         text = renumber("\n".join("\n".join(decls[n]) for n in names))
         emitted.append([d, hashlib.sha256(text.encode()).hexdigest()[:20] if names else ""])
     shutil.rmtree(wd, ignore_errors=True)
-    return {"code": rc, "files": files, "wantfiles": want, "emitted": emitted, "diag": (so.splitlines()[-1] if so.strip() else "")[:200] + perr[:100]}
+    # the definitions in the order fc meets them: a leading .foi with the package_info blocks, then the files in order
+    by = {d["id"]: d for d in pkg["defs"]}
+    pinfo = [d for _, d in hist if by[d]["text"].startswith("package_info")]
+    order = ([d for d in pinfo] if (foi_first and pinfo) else []) + [d for f in sorted(set(f for f, _ in hist)) for ff, d in hist if ff == f and not (foi_first and d in pinfo)]
+    return {"code": rc, "files": files, "wantfiles": want, "emitted": emitted, "diag": (so.splitlines()[-1] if so.strip() else "")[:200] + perr[:100],
+            "psevents": psevents, "order": order}
 
 
 def run(ctx):
@@ -146,6 +229,7 @@ def run(ctx):
                 raise Infra("deviation %s does not violate any invariant of the model (vacuous?)" % cfg)
     ctx.build("fc")
     fcutil.build_goast(ctx)
+    prelude_roots(ctx)             # (calibrated once, before the parallel runs)
     sd = ctx.spec_dir()
     jobs = []
     bases = {}
@@ -188,6 +272,26 @@ def run(ctx):
     n, bad = slicecheck.parse_trace_end(r["out"])
     if n != len(lines):
         raise Infra("trace length mismatch")
+    # white-box: the recorded parse-state events of every run against the rules of FoParseStateWB.tla
+    if prelude_roots(ctx):
+        wb = []
+        for (pi, pkg, h, foi, kind), r in zip(jobs, res):
+            by = {d["id"]: d for d in pkg["defs"]}
+            wb.append({"code": r["code"], "defs": [{"id": d, "names": names_of(by[d]["text"])} for d in r["order"]], "events": r["psevents"] or []})
+        core.write_ndjson(os.path.join(sd, "ps_wb.ndjson"), wb)
+        r2 = ctx.tlc("FoParseStateWB", "FoParseStateWB.cfg", workers=1, timeout=3000, heap_gb=6)
+        n2, bad2 = slicecheck.parse_trace_end(r2["out"])
+        if n2 != len(wb):
+            raise Infra("white-box trace length mismatch")
+        why = dict((int(m.group(1)), m.group(2)) for m in re.finditer(r'<<"WB-REJECT",\s*(\d+),\s*"([^"]*)"', r2["out"]))
+        ctx.extra["parse_state_events_validated"] = sum(len(w["events"]) for w in wb)
+        for b in bad2[:10]:
+            l = lines[b - 1]
+            ctx.violation("package %s, history %s%s: the recorded parse state breaks rule %s (spec/FoParseStateWB.tla)" % (
+                l["pkg"], json.dumps(l["hist"]), " (package_info in a leading .foi)" if l["foi"] else "", why.get(b, "?")),
+                {"pkg": l["pkg"], "hist": l["hist"], "foi": l["foi"], "whitebox": wb[b - 1], "rule": why.get(b)})
+    else:
+        ctx.note("this tree has no parse-state hook (or fc fails on the prelude): the white-box part was skipped")
     for i, l in enumerate(lines):
         ctx.case([l["pkg"], l["hist"], l["foi"]], nontrivial=l["kind"] not in ("baseline", "minimal"),
                  sample={"pkg": l["pkg"], "history": l["hist"], "files": l["files"]} if i % 61 == 9 else None)
